@@ -9,5 +9,21 @@ mkdir -p .work evidence replays
 python3 tools/kernel_abi.py .work/kernel.json .work/kprobe
 python3 tools/gen_lean.py .work/facts.json .work/kernel.json lean/Fbr/Gen
 python3 tools/gen_probe.py .work/facts.json harness/src/gen_layout.rs
-(cd lean && lake build)
+# every theorem module and every driver named by a property configuration
+TARGETS=$(python3 - <<'PY'
+import sys
+sys.path.insert(0, "tools")
+from props import PROPS
+t = set()
+for cfg in PROPS.values():
+    t.add(cfg["thm"])
+    for s in cfg["stages"]:
+        if s.get("driver"):
+            t.add(s["driver"])
+    if cfg.get("witness"):
+        t.add(cfg["witness"]["driver"])
+print(" ".join(sorted(t)))
+PY
+)
+(cd lean && lake build $TARGETS)
 (cd harness && cargo build --offline --bins)
